@@ -6,6 +6,7 @@ vp/refs/bptc_ref.py (13x15 product code + (k*181 mod 196) interleaver), independ
 """
 from __future__ import annotations
 
+import functools
 import itertools
 
 from bitarray import bitarray
@@ -92,6 +93,12 @@ def oracle_fault(case):
     st, dec = call(B.deinterleave_data_bits, rx, True)
     if bitarray(dec) != m:
         raise Fail("errors_up_to_weight_2_corrected", {"wrong_info_bits": _diff(dec, m)["differing_positions"]}, "message returned exactly")
+    # "unusual, then ordinary" (lesson A.6): the encoder call that FOLLOWS a repairing decode of a damaged word (possibly with
+    # reserved bits received as 1) must still produce the code's codeword for its own message
+    m2 = _follow_up_message(case["msg"])
+    st, enc2 = call(B.encode, msg_bits(m2))
+    if bitarray(enc2).to01() != _ref_codeword01(m2):
+        raise Fail("encode_after_repairing_decode_equals_reference", _diff(enc2, bitarray(_ref_codeword01(m2))), "no difference to the reference codeword")
     # the same repair applied to the library's own de-interleaved layout must give the de-interleaved codeword
     cw = bitarray(bptc_ref.bptc196_encode(m.tolist()))
     for p in case["flips"]:
@@ -102,6 +109,93 @@ def oracle_fault(case):
     st, rep = call(B.repair_if_necessary, d_rx, True)
     if bitarray(rep) != d_cw:
         raise Fail("deinterleaved_repair_corrects_weight_2", _diff(rep, d_cw), "no difference to the de-interleaved codeword")
+
+
+@functools.lru_cache(maxsize=4096)
+def _ref_codeword01(msg_hex):
+    return bitarray(bptc_ref.bptc196_encode(msg_bits(msg_hex).tolist())).to01()
+
+
+def _follow_up_message(msg_hex):
+    """a second message derived from the case's own (rotated by 29 bits and complemented in every third bit)"""
+    v = int(msg_hex, 16)
+    v = ((v << 29) | (v >> 67)) & ((1 << 96) - 1)
+    return "%024x" % (v ^ int("249" * 8, 16))
+
+
+def oracle_containers(case):
+    """case = {msg: hex24, flips: [..], rep}: message / received word handed over in another container (lesson A.1) - same
+    results as the bit sequence demands; a container an entry point declines is outside the domain."""
+    from vp import containers as C
+
+    B = BPTC()
+    rep = case["rep"]
+    m = msg_bits(case["msg"])
+    ref = bitarray(_ref_codeword01(case["msg"]))
+    st, enc = C.try_call(B.encode, C.make(rep, m.tolist()))
+    if st == "ok":
+        if C.to_bits(enc) != ref.tolist():
+            raise Fail("container_encode_equals_reference", _diff(bitarray(C.to_bits(enc)), ref), "no difference", rep)
+    else:
+        case["_declined_encode"] = True
+    rx = ref.copy()
+    for p in case["flips"]:
+        rx.invert(p)
+    for repair in (True, False) if not case["flips"] else (True,):
+        st, dec = C.try_call(B.deinterleave_data_bits, C.make(rep, rx.tolist()), repair)
+        if st == "ok":
+            if C.to_bits(dec) != m.tolist():
+                raise Fail("container_decode_returns_message", _diff(bitarray(C.to_bits(dec)), m), "message returned exactly", rep)
+        else:
+            case["_declined_decode"] = True
+    st, out = C.try_call(B.repair_if_necessary, C.make(rep, rx.tolist()))
+    if st == "ok" and not (set(case["flips"]) & {0}):
+        if C.to_bits(out) != ref.tolist():
+            raise Fail("container_repair_returns_codeword", _diff(bitarray(C.to_bits(out)), ref), "no difference", rep)
+
+
+def oracle_interleaved(case):
+    """case = {pool: [hex24..], ops: [...]}: a history of encoder / decoder / repair calls over a small pool of messages and
+    error patterns (weight <= 2, biased to the reserved positions); every call must give the reference result for ITS
+    arguments whatever was called before (lesson A.6: state shared between calls only shows in a history)."""
+    B = BPTC()
+    pool = case["pool"]
+    for i, op in enumerate(case["ops"]):
+        msg = pool[op["m"] % len(pool)]
+        m = msg_bits(msg)
+        ref = bitarray(_ref_codeword01(msg))
+        rx = ref.copy()
+        for p in op.get("flips", []):
+            rx.invert(p)
+        k = op["k"]
+        if k == "encode":
+            st, out = call(B.encode, m)
+            if bitarray(out) != ref:
+                raise Fail("history_encode_equals_reference", {"step": i, **_diff(out, ref)}, "no difference")
+        elif k == "decode":
+            st, out = call(B.deinterleave_data_bits, rx, True)
+            if bitarray(out) != m:
+                raise Fail("history_decode_returns_message", {"step": i, "wrong_info_bits": _diff(out, m)["differing_positions"]}, "message returned exactly")
+        elif k == "decode_norepair":
+            st, out = call(B.deinterleave_data_bits, ref.copy(), False)
+            if bitarray(out) != m:
+                raise Fail("history_decode_returns_message", {"step": i, "wrong_info_bits": _diff(out, m)["differing_positions"]}, "message returned exactly")
+        elif k == "repair":
+            st, out = call(B.repair_if_necessary, rx)
+            exp = ref.copy()
+            if 0 in op.get("flips", []):
+                exp.invert(0)  # R(3) is outside the code
+            if bitarray(out) != exp:
+                raise Fail("history_repair_returns_codeword", {"step": i, **_diff(out, exp)}, "no difference")
+        elif k == "repair_deinterleaved":
+            d_rx = bitarray(call(B.deinterleave_all_bits, rx)[1])
+            exp = ref.copy()
+            if 0 in op.get("flips", []):
+                exp.invert(0)
+            d_exp = bitarray(call(B.deinterleave_all_bits, exp)[1])
+            st, out = call(B.repair_if_necessary, d_rx, True)
+            if bitarray(out) != d_exp:
+                raise Fail("history_repair_returns_codeword", {"step": i, **_diff(out, d_exp)}, "no difference")
 
 
 def oracle_linearity(case):
@@ -242,7 +336,71 @@ def drv_fault(ctx: Ctx, sub: SubCheck):
     ctx.tally.notes.append("exhaustive over all weight<=2 error patterns for each listed codeword (structured codewords in quick: all singles + all same-row and same-column pairs); messages are chosen, not enumerated (linearity clause)")
 
 
+RESERVED_POSITIONS = [0] + [bptc_ref.bptc196_position(k) for k in (1, 2, 3)]  # R(3) and R(2..0) in transmit order
+
+
+def drv_containers(ctx: Ctx, sub: SubCheck):
+    from vp import containers as C
+
+    rng = ctx.rng("containers")
+    msgs = ["%024x" % ((1 << 96) - 1), "%024x" % 1, "%024x" % (1 << 95)] + ["%024x" % rng.getrandbits(96) for _ in range(ctx.pick(12, 200))]
+    items = [(rep, msg) for rep in C.ALTERNATIVE for msg in msgs]
+
+    def work(it, t: Tally):
+        rep, msg = it
+        r = ctx.rng(f"containers:{rep}:{msg}")
+        flipsets = [[]] + [[r.randrange(196)] for _ in range(3)] + [sorted(r.sample(range(196), 2)) for _ in range(4)] + [[RESERVED_POSITIONS[1], RESERVED_POSITIONS[2]]]
+        for fl in flipsets:
+            case = {"msg": msg, "flips": fl, "rep": rep}
+            ctx.run_case(sub.name, oracle_containers, case, t)
+            declined = [k for k in ("_declined_encode", "_declined_decode") if case.get(k)]
+            for d in declined:
+                t.case(sub.name, nontrivial=False, cls=f"container_not_accepted.{d[10:]}.{rep}")
+            t.case(sub.name, nontrivial=bool(fl), cls=f"{rep}.weight_{len(fl)}")
+        t.sample(sub.name, {"msg": msg, "rep": rep})
+
+    ctx.shards(work, items)
+
+
+def drv_interleaved(ctx: Ctx, sub: SubCheck):
+    from hypothesis import strategies as st
+
+    pos = st.one_of(st.sampled_from(RESERVED_POSITIONS), st.integers(0, 195))
+    flips = st.lists(pos, min_size=0, max_size=2, unique=True).map(sorted)
+    op = st.one_of(
+        st.builds(lambda m: {"k": "encode", "m": m}, st.integers(0, 3)),
+        st.builds(lambda m, f: {"k": "decode", "m": m, "flips": f}, st.integers(0, 3), flips),
+        st.builds(lambda m: {"k": "decode_norepair", "m": m}, st.integers(0, 3)),
+        st.builds(lambda m, f: {"k": "repair", "m": m, "flips": f}, st.integers(0, 3), flips),
+        st.builds(lambda m, f: {"k": "repair_deinterleaved", "m": m, "flips": f}, st.integers(0, 3), flips),
+    )
+    strat = st.fixed_dictionaries({"pool": st.lists(st.integers(0, 2**96 - 1).map(lambda v: "%024x" % v), min_size=2, max_size=4), "ops": st.lists(op, min_size=2, max_size=10)})
+
+    def rec(c, tt):
+        kinds = [o["k"] for o in c["ops"]]
+        dec_then_enc = any(a != "encode" and b == "encode" for a, b in zip(kinds, kinds[1:]))
+        reserved = any(set(o.get("flips", [])) & set(RESERVED_POSITIONS) for o in c["ops"])
+        tt.case(sub.name, key=c, nontrivial=dec_then_enc, cls="decode_or_repair_then_encode" if dec_then_enc else "other")
+        if reserved:
+            tt.case(sub.name, nontrivial=False, cls="reserved_position_received_inverted", n=0)
+
+    def hyp(shard, t: Tally):
+        ctx.hypothesis(sub.name, strat, oracle_interleaved, ctx.pick(60, 1200), tally=t, shard=shard, record=rec)
+
+    ctx.shards(hyp, list(range(16)))
+    # directed: every pair of reserved positions received inverted, in every repair entry point, immediately followed by encode
+    msgs = ["%024x" % ((1 << 96) - 1), "%024x" % 0x0123456789ABCDEF01234567]
+    for fl in [[p] for p in RESERVED_POSITIONS] + [sorted(p) for p in itertools.combinations(RESERVED_POSITIONS, 2)]:
+        for k in ("decode", "repair", "repair_deinterleaved"):
+            for follow in ("encode", "decode_norepair"):
+                case = {"pool": msgs, "ops": [{"k": k, "m": 0, "flips": fl}, {"k": follow, "m": 1}, {"k": k, "m": 1, "flips": fl}, {"k": follow, "m": 0}]}
+                ctx.run_case(sub.name, oracle_interleaved, case)
+                ctx.tally.case(sub.name, key=case, nontrivial=True, cls="directed_reserved_then_" + follow)
+
+
 SUBCHECKS = [
+    SubCheck("containers", oracle_containers, drv_containers, "message / received word in little-endian or frozen bitarrays and numpy arrays: same results as the bit sequence demands"),
+    SubCheck("interleaved", oracle_interleaved, drv_interleaved, "histories of encode / decode / repair calls over a small pool (errors biased to the reserved positions): every call gives its reference result"),
     SubCheck("roundtrip", oracle_roundtrip, drv_roundtrip, "encode == reference, decode∘encode == id (repair on/off), repair leaves codewords alone"),
     SubCheck("linearity", oracle_linearity, drv_linearity, "encode(a^b) == encode(a)^encode(b) on random pairs"),
     SubCheck("fault", oracle_fault, drv_fault, "all 19306 error patterns of weight <= 2 are corrected"),
